@@ -468,6 +468,7 @@ func drawCase(t *rapid.T, maxBatches int) *Case {
 	c.ServerArgs = rapid.SampledFrom([][]string{{}, {"-c=false"}, {"-p"}, {"-c=false", "-p"}, {"-s", "2000"}, {"env:GOMAXPROCS=1"}, {"-p", "env:GOMAXPROCS=2"}, {"-c=false", "env:GOMAXPROCS=1"}}).Draw(t, "sargs")
 	d := model.NewData(c.Data.Rows())
 	pool := gen.NewLeafPool(d)
+	poolB := gen.NewLeafPool(d).AllowEmptyName() // batches are objects on the wire: an empty column name can be said
 	nb := rapid.IntRange(1, maxBatches).Draw(t, "nbatches")
 	for b := 0; b < nb; b++ {
 		n := rapid.IntRange(0, 8).Draw(t, "nq")
@@ -480,7 +481,7 @@ func drawCase(t *rapid.T, maxBatches int) *Case {
 		}
 		var batch []Q
 		for i := 0; i < n; i++ {
-			q := drawQ(t, pool, c.Data.Recipe != nil, i == invalidAt)
+			q := drawQ(t, poolB, c.Data.Recipe != nil, i == invalidAt)
 			if i > 0 && i != invalidAt && rapid.IntRange(0, 3).Draw(t, "twin") == 0 {
 				// same expression as an earlier member, different group-by / id
 				// (members of a batch must not be confused with each other)
